@@ -348,6 +348,9 @@ def run(rep, tier, seed, selftest):
     # ... and successful runs of SEVERAL modules that collected lints (up to 300): what the tool shows per module
     linted = [i for i in ids if ends[i][0] == "success" and len(cases[i].get("mods", [])) >= 2 and ends[i][1].get("lints")]
     sample += linted[:300]
+    # ... and the cells whose crash depends on what LLVM's C++ does with a value that is no integer constant (undefined
+    # behaviour there: the optimised binary may die where the worker does not)
+    sample += [i for i in ids if cases[i].get("kind") in ("shape:constdiv", "shape:opaque", "shape:target")]
     anomalies = [i for i in ids if ends[i][0] not in ("success", "failure")]
     anomalies = sorted(set(anomalies[:200] + [i for i in anomalies if i in stack_pending]))
     root = os.path.join(common.WORK, "pipeline-emit-%d" % os.getpid())
